@@ -242,6 +242,17 @@ pub fn exec(it: &mut Interp, toks: &[&str], out: &mut Vec<String>) -> bool {
             out.push(format!("MS {}", f32bits(s)));
             true
         }
+        ["matsimq", cb, r, c, ks] => {
+            // a matrix of tens of thousands of cells in several rows: only the combined score
+            let (Some(comb), Ok(r), Ok(c), Some(ks)) = (parse_comb(cb), r.parse::<usize>(), c.parse::<usize>(), unids(ks)) else {
+                return false;
+            };
+            let data: Vec<f32> = ks.iter().map(|k| *k as f32 / 64.0).collect();
+            let m = Matrix::new(r, c, &data);
+            let s = comb.calculate(&m);
+            out.push(format!("MS {}", f32bits(s)));
+            true
+        }
         ["matsim", cb, r, c, ks] => {
             let (Some(comb), Ok(r), Ok(c), Some(ks)) = (parse_comb(cb), r.parse::<usize>(), c.parse::<usize>(), unids(ks)) else {
                 return false;
